@@ -116,6 +116,10 @@ func runC17(c c17Case) *vlib.Outcome {
 				time.Sleep(time.Duration(c.Pauses[i]) * time.Millisecond)
 			}
 			loc, _ := r.Params["location"].(string)
+			cachedBefore := map[string]bool{}
+			for _, cl := range s.GetCachedLocations(newCtx()) {
+				cachedBefore[cl] = true
+			}
 			res := c18Direct(s, r, gens)
 			results = append(results, res)
 			if r.Op == "create" && res.OK {
@@ -143,7 +147,7 @@ func runC17(c c17Case) *vlib.Outcome {
 					}
 				}
 				for _, cl := range s.GetCachedLocations(newCtx()) {
-					if cl == loc {
+					if cl == loc && !cachedBefore[loc] {
 						o.Fail("UNCREATED_LOCATION_CACHED", "%s: a failed request to the uncreated location %q left a cache entry", when, loc)
 					}
 				}
